@@ -82,64 +82,80 @@ def validDefinition (cased : Bool) (ls : List UInt8) : Bool :=
 
 def firstBad (p : Nat → Bool) : Option Nat := (List.range 256).find? (fun l => !p l)
 
-/-- The statement of C17 for an alphabet built from a valid definition, evaluated on the
-    implementation's observation of `NewAlphabet` (tokens of an accepted `na` line):
-    validity ⇔ membership, IndexOf negative ⇔ invalid, Letter/IndexOf mutually inverse on
-    0..Len-1, Len = length of the definition. -/
+/-- The statement of C17 for an alphabet built from a valid definition, on the *parsed*
+    observation of `NewAlphabet`: `len` = `Len()`, `valid` / `idx` the 256 answers of `IsValid` /
+    `IndexOf`, `letters` the answers of `Letter(0 … Len-1)`.  Validity ⇔ membership, IndexOf
+    negative ⇔ invalid, Letter/IndexOf mutually inverse on 0..Len-1, Len = length of the
+    definition.  Proved in `Properties/C17_checker.lean` (`naStatement_none_iff`). -/
+def naStatement (cased : Bool) (ls : List UInt8) (len : Nat) (valid : Array Bool) (idx : Array Int)
+    (letters : Array UInt8) : Option String :=
+  let v (l : Nat) : Bool := valid.getD l false
+  let ix (l : Nat) : Int := idx.getD l (-1)
+  if idx.size ≠ 256 then some "unparsable-observation"
+  else if len ≠ ls.length then some "len-is-definition-length"
+  else match firstBad (fun l => v l == inDefinition cased ls (UInt8.ofNat l)) with
+  | some l => some s!"valid-iff-in-definition letter={l}"
+  | none =>
+  match firstBad (fun l => (ix l < 0) == !v l) with
+  | some l => some s!"indexOf-negative-iff-invalid letter={l}"
+  | none =>
+  match (List.range len).find? (fun i =>
+      match letters[i]? with
+      | some x => !(v x.toNat && ix x.toNat == (i : Int))
+      | none => true) with
+  | some i => some s!"indexOf-letter-inverse index={i}"
+  | none =>
+  match firstBad (fun l => !v l ||
+      (0 ≤ ix l && ix l < len &&
+       match letters[(ix l).toNat]? with
+       | some x => if cased then x.toNat == l else toLower x == toLower (UInt8.ofNat l)
+       | none => false)) with
+  | some l => some s!"letter-indexOf-inverse letter={l}"
+  | none => none
+
+/-- `naStatement` on the tokens of an accepted `na` line -/
 def specNA (cased : Bool) (ls : List UInt8) (t : List String) : Option String :=
   match t with
   | ["ok", len, vbm, idx, letters, _, _, _] =>
     match parseNat len, bitsOfBitmap vbm, parseInts idx, bytesOfHex letters with
     | some len, some valid, some idx, some letters =>
-      let idx := idx.toArray
-      let letters := letters.toArray
-      let v (l : Nat) : Bool := valid.getD l false
-      let ix (l : Nat) : Int := idx.getD l (-1)
-      if idx.size ≠ 256 then some "unparsable-observation"
-      else if len ≠ ls.length then some "len-is-definition-length"
-      else match firstBad (fun l => v l == inDefinition cased ls (UInt8.ofNat l)) with
-      | some l => some s!"valid-iff-in-definition letter={l}"
-      | none =>
-      match firstBad (fun l => (ix l < 0) == !v l) with
-      | some l => some s!"indexOf-negative-iff-invalid letter={l}"
-      | none =>
-      match (List.range len).find? (fun i =>
-          match letters[i]? with
-          | some x => !(v x.toNat && ix x.toNat == (i : Int))
-          | none => true) with
-      | some i => some s!"indexOf-letter-inverse index={i}"
-      | none =>
-      match firstBad (fun l => !v l ||
-          (0 ≤ ix l && ix l < len &&
-           match letters[(ix l).toNat]? with
-           | some x => if cased then x.toNat == l else toLower x == toLower (UInt8.ofNat l)
-           | none => false)) with
-      | some l => some s!"letter-indexOf-inverse letter={l}"
-      | none => none
+      naStatement cased ls len valid idx.toArray letters.toArray
     | _, _, _, _ => some "unparsable-observation"
   | _ => some "unparsable-observation"
 
-/-- The statement of C17 for an accepted pairing, evaluated on the implementation's
-    observation of `NewPairing`: the complement is an involution on all 256 letters, and the
-    table holds the method's result with the high bit set exactly when `ok` is false. -/
+/-- The statement of C17 for an accepted pairing, on the *parsed* observation of `NewPairing`
+    (`pair`: the 256 answers of the complement method, `okb`: its `ok` flags, `comp`: the table):
+    the complement is an involution on all 256 letters, and the table holds the method's result
+    with the high bit set exactly when `ok` is false.  Proved in `Properties/C17_checker.lean`
+    (`npStatement_none_iff`). -/
+def npStatement (pair : Array UInt8) (okb : Array Bool) (comp : Array UInt8) : Option String :=
+  if pair.size ≠ 256 || comp.size ≠ 256 then some "unparsable-observation"
+  else match firstBad (fun l => (pair.getD (pair.getD l 0).toNat 0).toNat == l) with
+  | some l => some s!"complement-involutive letter={l}"
+  | none =>
+  match firstBad (fun l =>
+      let c := pair.getD l 0
+      comp.getD l 0 == (if okb.getD l false then c else c ||| 128)) with
+  | some l => some s!"table-agrees-with-method letter={l}"
+  | none => none
+
+/-- `npStatement` on the tokens of an accepted `np` line -/
 def specNP (t : List String) : Option String :=
   match t with
   | ["ok", pair, okbm, comp] =>
     match bytesOfHex pair, bitsOfBitmap okbm, bytesOfHex comp with
-    | some pair, some okb, some comp =>
-      let pair := pair.toArray
-      let comp := comp.toArray
-      if pair.size ≠ 256 || comp.size ≠ 256 then some "unparsable-observation"
-      else match firstBad (fun l => (pair.getD (pair.getD l 0).toNat 0).toNat == l) with
-      | some l => some s!"complement-involutive letter={l}"
-      | none =>
-      match firstBad (fun l =>
-          let c := pair.getD l 0
-          comp.getD l 0 == (if okb.getD l false then c else c ||| 128)) with
-      | some l => some s!"table-agrees-with-method letter={l}"
-      | none => none
+    | some pair, some okb, some comp => npStatement pair.toArray okb comp.toArray
     | _, _, _ => some "unparsable-observation"
   | _ => some "unparsable-observation"
+
+/-- what `AllValid` must answer (twice: method and table form): the first position whose letter
+    is not in the definition, or `(true, -1)`.  `Properties/C17_checker.lean`: `avFirst_spec`. -/
+def avFirst (d : Def) (ls : List UInt8) : Option Nat := ls.findIdx? (fun l => !inDef d l)
+
+def avWant (d : Def) (ls : List UInt8) : String :=
+  match avFirst d ls with
+  | some p => s!"0 {p} 0 {p}"
+  | none => "1 -1 1 -1"
 
 def handleTokens (inp : List String) (obs : String) : Verdict :=
   let ot := tokens obs
@@ -183,10 +199,7 @@ def handleTokens (inp : List String) (obs : String) : Verdict :=
         let (okm, pos) := a.allValid ls
         let m := s!"{showBool okm} {pos} {showBool okm} {pos}"
         -- spec: first position whose letter is not in the definition
-        let first := ls.findIdx? (fun l => !inDef d l)
-        let want := match first with
-          | some p => s!"0 {p} 0 {p}"
-          | none => "1 -1 1 -1"
+        let want := avWant d ls
         let tags := ["allvalid"] ++ (if okm then ["all-valid"] else ["nt", "has-invalid"])
         if obs ≠ want then fail s!"allValid-first-invalid want={want}" tags
         else if m == obs then ok tags else diff m tags
